@@ -10,7 +10,8 @@ RULE = ("fix_whitespace: corpus of edge texts + blank-line/indentation layouts f
         "backslashes, \\r \\f \\x1c) x widths 1..80 x indents 0..16 x offsets with offset < width, + every (text, width, offset, indent) the templates pass "
         "to the wrap/rst filters during those generations; textwrap contract and Metadata.doc on grammar texts; the character classes exhaustively over 0..127. "
         "End to end: a one-service API with a comment on every kind of element (message, field, enum, enum value, service, method), benign comments and one "
-        "hazardous comment at a time (triple quotes, trailing backslash, backslash escapes, final quotes); and the same API with every element documented "
+        "hazardous comment at a time (triple quotes, trailing backslash, backslash escapes, final quotes; also on a request message shared by a unary, a "
+        "server-streaming, a client-streaming and a bidirectional rpc, whose comment is rendered into the four method docstrings of both clients); and the same API with every element documented "
         "only by a detached comment / only by a trailing one / by leading+trailing / leading+detached / two detached / trailing+detached (comment placement). "
         "A case is one input (text, or text+parameters, or comment set); distinct = distinct canonical JSON; non-trivial = non-blank text / changed by the "
         "implementation / at least one comment.")
@@ -131,7 +132,9 @@ def e2e_jobs(ctx):
         for k, (sig, tx, tgt) in enumerate(hz):
             if texts_index(sig, tx) == 0 and tgt in ("service", "message"):
                 keep.append((sig, tx, tgt))
-            elif texts_index(sig, tx) == 1 and tgt in ("method",):
+            elif texts_index(sig, tx) == 0 and tgt == "stream_request":       # rendered into all four streaming kinds of method docstring
+                keep.append((sig, tx, tgt))
+            elif texts_index(sig, tx) == 1 and tgt in ("method",) and sig.endswith("triple_quote_in_comment"):
                 keep.append((sig, tx, tgt))
         hz = keep
     for sig, tx, tgt in hz:
